@@ -159,6 +159,8 @@ package interpreter
 // ---- dispatch: every operator node reaches the operator function of its own name, operands in source order ----
 //@ func (*Interpreter).EvaluateExpression
 //@   trusted
+// (type invariant of run-time values, assumed and not verified: an object value is never a nil map)
+//@   summary typeis(result, map[string]interface{}) ==> result.(map[string]interface{}) != nil
 //@   assertat "switch e := expr.(type) {" depth <= maxEvalDepth
 
 //@ func (*Interpreter).evaluateUnaryOp
@@ -338,3 +340,102 @@ package interpreter
 // a declared return type: the response is built from the route's value only after CheckType accepted it
 //@ func (*Interpreter).ExecuteRoute
 //@   assertat "switch r := result.(type) {" route.ReturnType != nil ==> checkOK(result, route.ReturnType)
+
+// ---- built-in functions (C04, C01): no argument vector makes a built-in panic (strict: no index, slice, nil,
+// ---- type-assertion, division, allocation-size panic); errors are returned as GlyphLang-level errors
+//@ func builtinTimeNow
+//@   strict
+//@ func builtinNow
+//@   strict
+//@ func builtinOk
+//@   strict
+//@ func builtinErr
+//@   strict
+//@ func builtinUpper
+//@   strict
+//@ func builtinLower
+//@   strict
+//@ func builtinTrim
+//@   strict
+//@ func builtinSplit
+//@   strict
+//@ func builtinJoin
+//@   strict
+//@ func builtinContains
+//@   strict
+//@ func builtinReplace
+//@   strict
+//@ func builtinSubstring
+//@   strict
+//@ func builtinLength
+//@   strict
+//@ func builtinStartsWith
+//@   strict
+//@ func builtinEndsWith
+//@   strict
+//@ func builtinIndexOf
+//@   strict
+//@ func builtinCharAt
+//@   strict
+//@ func builtinParseInt
+//@   strict
+//@ func builtinParseFloat
+//@   strict
+//@ func builtinToString
+//@   strict
+//@ func builtinAbs
+//@   strict
+//@ func builtinMin
+//@   strict
+//@ func builtinMax
+//@   strict
+//@ func builtinRandomInt
+//@   strict
+//@ func builtinGenerateId
+//@   strict
+//@ func builtinAppend
+//@   strict
+//@ func builtinSet
+//@   strict
+//@ func builtinRemove
+//@   strict
+//@ func builtinKeys
+//@   strict
+//@ func builtinMap
+//@   strict
+//@ func builtinFilter
+//@   strict
+//@ func builtinReduce
+//@   strict
+//@ func builtinFind
+//@   strict
+//@ func builtinSome
+//@   strict
+//@ func builtinEvery
+//@   strict
+//@ func builtinSort
+//@   strict
+//@ func builtinReverse
+//@   strict
+//@ func builtinFlat
+//@   strict
+//@ func builtinSlice
+//@   strict
+//@ func builtinText
+//@   strict
+//@ func builtinHTML
+//@   strict
+//@ func builtinBlob
+//@   strict
+//@ func builtinRedirect
+//@   strict
+//@ func builtinHTTPGet
+//@   strict
+//@ func builtinHTTPPost
+//@   strict
+//@ func builtinHTTPPut
+//@   strict
+//@ func builtinHTTPPatch
+//@   strict
+//@ func builtinHTTPDelete
+//@   strict
